@@ -357,7 +357,7 @@ func (p *printer) writeCommentPrefix(pos, next token.Position, prev *ast.Comment
 		return
 	}
 
-	if pos.Line == p.last.Line && (prev == nil || prev.Text[1] != '/') {
+	if pos.Line == p.last.Line && (prev == nil || commentKind(prev) != '/') {
 		// comment on the same line as last item:
 		// separate with at least one separator
 		hasSep := false
@@ -455,7 +455,7 @@ func (p *printer) writeCommentPrefix(pos, next token.Position, prev *ast.Comment
 
 		// make sure there is at least one line break
 		// if the previous comment was a line comment
-		if n == 0 && prev != nil && prev.Text[1] == '/' {
+		if n == 0 && prev != nil && commentKind(prev) == '/' {
 			n = 1
 		}
 
@@ -731,6 +731,15 @@ func (p *printer) containsLinebreak() bool {
 	return false
 }
 
+// commentKind returns the second byte of the comment text: '/' for a //-style and '*' for a /*-style
+// comment; a #-style comment may consist of the '#' alone.
+func commentKind(c *ast.Comment) byte {
+	if len(c.Text) < 2 {
+		return 0
+	}
+	return c.Text[1]
+}
+
 // intersperseComments consumes all comments that appear before the next token
 // tok and prints it together with the buffered whitespace (i.e., the whitespace
 // that needs to be written before the next token). A heuristic is used to mix
@@ -760,7 +769,7 @@ func (p *printer) intersperseComments(next token.Position, tok token.Token) (wro
 		// use that information to decide more directly.
 		needsLinebreak := false
 		if p.mode&noExtraBlank == 0 &&
-			last.Text[1] == '*' && p.lineFor(last.Pos()) == next.Line &&
+			commentKind(last) == '*' && p.lineFor(last.Pos()) == next.Line &&
 			tok != token.COMMA &&
 			(tok != token.RPAREN || p.prevOpen == token.LPAREN) &&
 			(tok != token.RBRACK || p.prevOpen == token.LBRACK) {
@@ -772,7 +781,7 @@ func (p *printer) intersperseComments(next token.Position, tok token.Token) (wro
 		}
 		// Ensure that there is a line break after a //-style comment,
 		// before EOF, and before a closing '}' unless explicitly disabled.
-		if last.Text[1] == '/' ||
+		if commentKind(last) == '/' ||
 			tok == token.EOF ||
 			tok == token.RBRACE && p.mode&noExtraLinebreak == 0 {
 			needsLinebreak = true
